@@ -88,11 +88,11 @@ Definition mintact (src dst buf : mem) : mem * mem :=
 
 (** ** write sets of the phases *)
 Lemma mpack_frame src old c A : p * bsize c <= A -> mpack src old c A = old c A.
-Proof. intros H. unfold mpack, datapos_b. destruct (Nat.ltb_spec A (p * bsize c)); [lia|reflexivity]. Qed.
+Proof. intros H. clear Ha0 HP Hpi Hipi Hpi' Hipi' Hcompat Hdiff. unfold mpack, datapos_b. destruct (Nat.ltb_spec A (p * bsize c)); [lia|reflexivity]. Qed.
 Lemma malltoall_frame sbuf old q A : p * bsize q <= A -> malltoall sbuf old q A = old q A.
-Proof. intros H. unfold malltoall. destruct (Nat.ltb_spec A (p * bsize q)); [lia|reflexivity]. Qed.
+Proof. intros H. clear Ha0 HP Hpi Hipi Hpi' Hipi' Hcompat Hdiff. unfold malltoall. destruct (Nat.ltb_spec A (p * bsize q)); [lia|reflexivity]. Qed.
 Lemma munpack_frame rbuf data q A : size (mk d (sh' q)) <= A -> munpack rbuf data q A = data q A.
-Proof. intros H. unfold munpack. destruct (Nat.ltb_spec A (size (mk d (sh' q)))); [lia|reflexivity]. Qed.
+Proof. intros H. clear Ha0 HP Hpi Hipi Hpi' Hipi' Hcompat Hdiff. unfold munpack. destruct (Nat.ltb_spec A (size (mk d (sh' q)))); [lia|reflexivity]. Qed.
 
 (** ** the unpack reads received data positions only *)
 Lemma unpack_addr_facts q j' : valid q -> inb (mk d (sh' q)) j' ->
@@ -238,7 +238,7 @@ Theorem mplain_dst_frame src dst q A : size (mk d (sh' q)) <= A -> p * bsize q <
 Proof. intros H1 H2. rewrite mplain_dst_tail by exact H1. apply mpack_frame, H2. Qed.
 Theorem mplain_src_scratch src dst q A : A < p * bsize q ->
   fst (mplain src dst) q A = mpack src dst (upd q a0 (A / bsize q)) (q a0 * bsize q + A mod bsize q).
-Proof. intros H. unfold mplain, malltoall. cbn [fst]. destruct (Nat.ltb_spec A (p * bsize q)); [reflexivity|lia]. Qed.
+Proof. intros H. clear Ha0 HP Hpi Hipi Hpi' Hipi' Hcompat Hdiff. unfold mplain, malltoall. cbn [fst]. destruct (Nat.ltb_spec A (p * bsize q)); [reflexivity|lia]. Qed.
 Theorem mplain_src_frame src dst q A : p * bsize q <= A -> fst (mplain src dst) q A = src q A.
 Proof. intros H. unfold mplain. cbn [fst]. apply malltoall_frame, H. Qed.
 
@@ -252,7 +252,7 @@ Theorem mintact_dst_frame src dst buf q A : size (mk d (sh' q)) <= A -> p * bsiz
 Proof. intros H1 H2. rewrite mintact_dst_tail by exact H1. apply mpack_frame, H2. Qed.
 Theorem mintact_buf_scratch src dst buf q A : A < p * bsize q ->
   snd (mintact src dst buf) q A = mpack src dst (upd q a0 (A / bsize q)) (q a0 * bsize q + A mod bsize q).
-Proof. intros H. unfold mintact, malltoall. cbn [snd]. destruct (Nat.ltb_spec A (p * bsize q)); [reflexivity|lia]. Qed.
+Proof. intros H. clear Ha0 HP Hpi Hipi Hpi' Hipi' Hcompat Hdiff. unfold mintact, malltoall. cbn [snd]. destruct (Nat.ltb_spec A (p * bsize q)); [reflexivity|lia]. Qed.
 Theorem mintact_buf_frame src dst buf q A : p * bsize q <= A -> snd (mintact src dst buf) q A = buf q A.
 Proof. intros H. unfold mintact. cbn [snd]. apply malltoall_frame, H. Qed.
 
